@@ -41,20 +41,42 @@ struct Cfg {
     calls: usize,
     /// node 1 is a 2-shard Scylla node (pool = `pool` per shard)
     sharded: bool,
+    /// names of the two calls: 0 = ks_one then ks_two; 1 = ks_one twice; 2 = ks_one, then "ks_one" case-sensitively
+    variant: u8,
     kills: u32,
     adds: u32,
     naks: u32,
     max_steps: usize,
 }
 impl Cfg {
+    /// identity of the keyspace call k asks for: (index into KS, case-sensitive flag) - what the driver compares
+    fn ident(&self, k: usize) -> (usize, bool) {
+        match self.variant {
+            0 => (k, false),
+            1 => (0, false),
+            _ => (0, k == 1),
+        }
+    }
+    fn ks_name(&self, k: usize) -> &'static str {
+        KS[self.ident(k).0]
+    }
+    fn use_text(&self, k: usize) -> String {
+        let (n, cs) = self.ident(k);
+        if cs { format!("USE \"{}\"", KS[n]) } else { format!("USE {}", KS[n]) }
+    }
+    /// call k asks for exactly what call k-1 asked for: a driver may legitimately treat it as a no-op
+    fn repeat(&self, k: usize) -> bool {
+        k > 0 && self.ident(k) == self.ident(k - 1)
+    }
     fn json(&self) -> Value {
-        json!({"pool": self.pool, "calls": self.calls, "sharded": self.sharded, "kills": self.kills, "adds": self.adds, "naks": self.naks, "max_steps": self.max_steps})
+        json!({"pool": self.pool, "calls": self.calls, "sharded": self.sharded, "variant": self.variant, "kills": self.kills, "adds": self.adds, "naks": self.naks, "max_steps": self.max_steps})
     }
     fn from_json(v: &Value) -> Cfg {
         Cfg {
             pool: v["pool"].as_u64().unwrap_or(1) as usize,
             calls: v["calls"].as_u64().unwrap_or(1) as usize,
             sharded: v["sharded"].as_bool().unwrap_or(false),
+            variant: v["variant"].as_u64().unwrap_or(0) as u8,
             kills: v["kills"].as_u64().unwrap_or(1) as u32,
             adds: v["adds"].as_u64().unwrap_or(1) as u32,
             naks: v["naks"].as_u64().unwrap_or(0) as u32,
@@ -101,6 +123,7 @@ struct RunStats {
     calls_ok: u64,
     calls_err: u64,
     window_requests: u64,
+    use_rounds_skipped: u64,
     trace: Vec<String>,
     states: Vec<u64>,
     state_strs: Vec<String>,
@@ -248,7 +271,7 @@ impl World {
 
     async fn expect_use(&mut self, i: usize, k: usize) -> Result<(), Fail> {
         let id = self.conns[i].id;
-        let want = format!("USE {}", KS[k]);
+        let want = self.cfg.use_text(k);
         let what = format!("{want:?} on connection {}", self.conns[i].name());
         let t0 = std::time::Instant::now();
         let a = loop {
@@ -257,6 +280,13 @@ impl World {
                 Err(e) => {
                     if t0.elapsed() > mockcluster::DEADLINE {
                         return Err(stuck(e));
+                    }
+                    if self.conns[i].pooled && self.cfg.repeat(k) && self.flags[k].load(Ordering::SeqCst) != 0 {
+                        // a repeated request for the same keyspace returned without a new USE round on this
+                        // connection: allowed by the property (the oracle decides whether it was right to)
+                        self.conns[i].last_use_seen = Some(k);
+                        self.stats.use_rounds_skipped += 1;
+                        return Ok(());
                     }
                     if !self.conns[i].pooled {
                         // the model says this connection is not in the pool yet; if it serves requests the prediction is
@@ -328,7 +358,7 @@ impl World {
                     }
                 } else {
                     match self.current {
-                        Some(k) if c.last_use_seen != Some(k) => {
+                        Some(k) if c.last_use_seen.map(|x| self.cfg.ident(x)) != Some(self.cfg.ident(k)) => {
                             self.expect_use(i, k).await?;
                             progressed = true;
                         }
@@ -354,11 +384,12 @@ impl World {
             }
             if let Some((k, _)) = &self.inflight {
                 let k = *k;
-                if self.snapshot.iter().all(|&i| !self.conns[i].alive || self.conns[i].acked == Some(k) || self.conns[i].nak == Some(k)) {
+                let returned_early = self.cfg.repeat(k) && self.flags[k].load(Ordering::SeqCst) != 0 && self.snapshot.iter().all(|&i| !self.conns[i].alive || self.conns[i].use_parked.is_none());
+                if returned_early || self.snapshot.iter().all(|&i| !self.conns[i].alive || self.conns[i].acked == Some(k) || self.conns[i].nak == Some(k)) {
                     let (_, h) = self.inflight.take().unwrap();
                     let ok = tokio::time::timeout(mockcluster::DEADLINE, h)
                         .await
-                        .map_err(|_| stuck(format!("use_keyspace({}) did not return although every pool connection has answered or died", KS[k])))?
+                        .map_err(|_| stuck(format!("use_keyspace({}) did not return although every pool connection has answered or died", self.cfg.use_text(k))))?
                         .map_err(|e| stuck(format!("call task: {e}")))?;
                     if ok {
                         self.stats.calls_ok += 1;
@@ -441,10 +472,11 @@ impl World {
             self.started_flags[k] = true;
             let s = self.session.clone();
             let flags = self.flags.clone();
+            let (name_idx, case_sensitive) = self.cfg.ident(k);
             let h = tokio::spawn(async move {
-                let r = s.use_keyspace(KS[k], false).await;
+                let r = s.use_keyspace(KS[name_idx], case_sensitive).await;
                 if std::env::var("C20_DUMP").is_ok() {
-                    eprintln!("use_keyspace({}) returned {r:?}", KS[k]);
+                    eprintln!("use_keyspace({}, {case_sensitive}) returned {r:?}", KS[name_idx]);
                 }
                 flags[k].store(if r.is_ok() { 1 } else { 2 }, Ordering::SeqCst);
                 r.is_ok()
@@ -472,7 +504,7 @@ impl World {
                 return Err(stuck(format!("parked USE answer of {name} vanished")));
             }
             self.conns[i].acked = Some(k);
-            if !self.conns[i].pooled && self.current == Some(k) {
+            if !self.conns[i].pooled && self.current.map(|c| self.cfg.ident(c)) == Some(self.cfg.ident(k)) {
                 self.conns[i].pooled = true;
                 self.conns[i].needs_sync = true;
             }
@@ -502,7 +534,7 @@ impl World {
     /// connection has not acknowledged its keyspace as far as the server knows).
     async fn requests_after_step(&mut self) {
         let window = match self.allowed_now() {
-            Some(a) if a.len() == 1 => self.conns.iter().any(|c| c.alive && c.acked != Some(a[0])),
+            Some(a) if a.len() == 1 => self.conns.iter().any(|c| c.alive && c.acked.map(|x| self.cfg.ks_name(x)) != Some(self.cfg.ks_name(a[0]))),
             _ => false,
         };
         let n = if window { 8 } else { 2 };
@@ -552,7 +584,7 @@ impl World {
                     } else {
                         self.stats.lenient_frames += 1;
                     }
-                    let names: Vec<&str> = allowed.iter().map(|k| KS[*k]).collect();
+                    let names: Vec<&str> = allowed.iter().map(|k| self.cfg.ks_name(*k)).collect();
                     let ok = f.keyspace.as_deref().map(|k| names.contains(&k)).unwrap_or(false);
                     if !ok {
                         let conn = self.conns.iter().find(|c| c.id == e.conn).map(|c| c.name()).unwrap_or_else(|| format!("c{}", e.conn));
@@ -678,12 +710,17 @@ fn main() {
     for calls in [1usize, 2] {
         for pool in [1usize, 2] {
             // error answers (nak): in the single-connection pools (and the sharded configuration of the thorough tier)
-            cfgs.push(Cfg { pool, calls, sharded: false, kills: 1, adds: 1, naks: if pool == 1 { 1 } else { 0 }, max_steps: 14 });
+            cfgs.push(Cfg { pool, calls, sharded: false, variant: 0, kills: 1, adds: 1, naks: if pool == 1 { 1 } else { 0 }, max_steps: 14 });
         }
     }
+    // the same name twice (first round may fail with error answers on some or all connections), and the same name
+    // with the other case-sensitivity flag
+    cfgs.insert(1, Cfg { pool: 1, calls: 2, sharded: false, variant: 1, kills: 1, adds: 1, naks: 2, max_steps: 14 });
+    cfgs.push(Cfg { pool: 1, calls: 2, sharded: false, variant: 2, kills: 1, adds: 1, naks: 1, max_steps: 14 });
     if thorough {
-        cfgs.push(Cfg { pool: 1, calls: 2, sharded: true, kills: 1, adds: 1, naks: 1, max_steps: 14 });
-        cfgs.push(Cfg { pool: 1, calls: 2, sharded: false, kills: 2, adds: 1, naks: 0, max_steps: 16 });
+        cfgs.push(Cfg { pool: 2, calls: 2, sharded: false, variant: 1, kills: 1, adds: 0, naks: 2, max_steps: 14 });
+        cfgs.push(Cfg { pool: 1, calls: 2, sharded: true, variant: 0, kills: 1, adds: 1, naks: 1, max_steps: 14 });
+        cfgs.push(Cfg { pool: 1, calls: 2, sharded: false, variant: 0, kills: 2, adds: 1, naks: 0, max_steps: 16 });
     }
     if let Some(only) = r.args.extra_value("--only-cfg").and_then(|s| s.parse::<usize>().ok()) {
         cfgs = vec![cfgs[only]];
@@ -723,6 +760,7 @@ fn main() {
                     rr.counters.add("calls_returned_ok", st.calls_ok);
                     rr.counters.add("calls_returned_err", st.calls_err);
                     rr.counters.add("requests_in_risky_window", st.window_requests);
+                    rr.counters.add("repeat_call_returned_without_use_round", st.use_rounds_skipped);
                     rr.counters.max("max_steps_in_a_run", st.steps as u64);
                     for a in &st.trace {
                         rr.counters.add(&format!("step_{}", a.split(':').next().unwrap()), 1);
